@@ -15,10 +15,12 @@
    the returned object yields.  No theorem below restricts env, eh or p except
    by the hypotheses written in its statement.
 
-   [wf_program Pst Pn Pv Ptail p] says that every response object, response
+   [wf_program Pst Pn Pv Ptail Pesc p] says that every response object, response
    mutation and iterable occurring anywhere in p (at any nesting depth)
    satisfies: status pairs Pst, header names Pn, header values and cookie
-   renderings Pv, and the items after the first chunk of a bytes iterable Ptail.
+   renderings Pv, and the items after the first chunk of a bytes iterable Ptail;
+   and that Pesc holds if anything in p raises an exception that the code lets
+   through (Pesc = True: allowed, Pesc = False: p has no such raise).
    The hypothesis on eh says that custom error handlers map well-formed errors
    to well-formed values. *)
 From Coq Require Import String.
@@ -49,9 +51,15 @@ Print Assumptions C03_cast_terminates.
 (* ---- exactly one start_response ---- *)
 
 (* Whatever hooks, routing, handler, nested responses and error handlers do —
-   also when the catch-all answers, and even when the catch-all itself fails. *)
+   also when the catch-all answers, and even when the catch-all itself fails.
+   The one exception, by design of the code: an exception that its
+   `except (KeyboardInterrupt, SystemExit, MemoryError): raise` clauses let
+   through, or one that is not an Exception at all, goes to the server
+   ([passed]); then start_response is not called.  C03_passthrough_by_class
+   says exactly which programs and classes that concerns. *)
 Theorem C03_one_start_response :
-  forall env eh p, count is_start (all_events (wsgi env eh p)) = 1.
+  forall env eh p,
+    count is_start (all_events (wsgi env eh p)) = if passed (wsgi env eh p) then 0 else 1.
 Proof. exact one_start_response. Qed.
 Print Assumptions C03_one_start_response.
 
@@ -64,9 +72,9 @@ Print Assumptions C03_one_start_response.
    the response object's code. *)
 Theorem C03_status_wf :
   forall env eh p,
-    wf_program status_ok Tr Tr TrI p ->
-    (forall c h r o, eh c = Some h -> wf_resp status_ok Tr Tr TrI r -> h r = ERet o ->
-                     wf_out status_ok Tr Tr TrI o) ->
+    wf_program status_ok Tr Tr TrI True p ->
+    (forall c h r o, eh c = Some h -> wf_resp status_ok Tr Tr TrI True r -> h r = ERet o ->
+                     wf_out status_ok Tr Tr TrI True o) ->
     forall line hl x, In (EvStart line hl x) (all_events (wsgi env eh p)) ->
       status_line_wf line
       /\ (x = false -> forall ev w st b, wsgi env eh p = WsOk ev w st b ->
@@ -99,9 +107,9 @@ Print Assumptions C03_status_setter_shape_refuted.
    Allow, Set-Cookie, the catch-all's header). *)
 Theorem C03_headers_wf :
   forall env eh p,
-    wf_program Tst name_ok hval_ok TrI p ->
-    (forall c h r o, eh c = Some h -> wf_resp Tst name_ok hval_ok TrI r -> h r = ERet o ->
-                     wf_out Tst name_ok hval_ok TrI o) ->
+    wf_program Tst name_ok hval_ok TrI True p ->
+    (forall c h r o, eh c = Some h -> wf_resp Tst name_ok hval_ok TrI True r -> h r = ERet o ->
+                     wf_out Tst name_ok hval_ok TrI True o) ->
     forall line hl x, In (EvStart line hl x) (all_events (wsgi env eh p)) ->
       Forall (fun kv => name_ok (fst kv) /\ wire_ok (snd kv)) hl.
 Proof. exact headers_wf. Qed.
@@ -115,9 +123,9 @@ Print Assumptions C03_headers_wf.
    framework encodes them, or the iteration stops with an exception.) *)
 Theorem C03_body_bytes :
   forall env eh p,
-    wf_program Tst Tr Tr bytes_tail_ok p ->
-    (forall c h r o, eh c = Some h -> wf_resp Tst Tr Tr bytes_tail_ok r -> h r = ERet o ->
-                     wf_out Tst Tr Tr bytes_tail_ok o) ->
+    wf_program Tst Tr Tr bytes_tail_ok True p ->
+    (forall c h r o, eh c = Some h -> wf_resp Tst Tr Tr bytes_tail_ok True r -> h r = ERet o ->
+                     wf_out Tst Tr Tr bytes_tail_ok True o) ->
     forall cs, In (EvBody cs) (all_events (wsgi env eh p)) -> forallb is_cbytes cs = true.
 Proof. exact body_bytes. Qed.
 Print Assumptions C03_body_bytes.
@@ -227,6 +235,53 @@ Proof.
 Qed.
 Print Assumptions C03_500_not_escape.
 
+(* Exceptions that pass through.  An exception class is the list of class names in its
+   __mro__.  Gen.passthrough_handle / _cast / _wsgi are the class tuples of the three
+   `except (...): raise` clauses, read from the source.
+   (1) They are KeyboardInterrupt, SystemExit, MemoryError — nothing else.
+   (2) A raise of an Exception subclass that matches none of them is, for the model, an
+       ordinary crash: in a hook / handler the program element HRaiseExc (answered 500 by
+       C03_500_not_escape), at the first next() IRaiseExc; and should it reach wsgi() it
+       goes to the catch-all.  Any other class is let through.
+   (3) A program in which nobody raises a let-through exception is always answered.
+   (4) When one is let through the server has seen what _handle did and nothing else:
+       no close(), no start_response, no body. *)
+Theorem C03_passthrough_by_class :
+  let three := [lit "KeyboardInterrupt"; lit "SystemExit"; lit "MemoryError"] in
+  (Gen.passthrough_handle = three /\ Gen.passthrough_cast = three /\ Gen.passthrough_wsgi = three)
+  /\ (forall mro j,
+        is_exception mro = true ->
+        (mro_in Gen.passthrough_handle mro = false -> hres_of_raise mro j = HRaiseExc j)
+        /\ (mro_in Gen.passthrough_cast mro = false -> item_of_raise mro j = IRaiseExc j)
+        /\ (mro_in Gen.passthrough_wsgi mro = false -> to_catchall mro = true))
+  /\ (forall mro j,
+        (is_exception mro = false \/ mro_in Gen.passthrough_handle mro = true ->
+           hres_of_raise mro j = HRaiseEsc (to_catchall mro))
+        /\ (is_exception mro = false \/ mro_in Gen.passthrough_cast mro = true ->
+           item_of_raise mro j = IRaiseEsc (to_catchall mro))
+        /\ (is_exception mro = false \/ mro_in Gen.passthrough_wsgi mro = true -> to_catchall mro = false))
+  /\ (forall env eh p,
+        wf_program Tst Tr Tr TrI False p ->
+        (forall c h r o, eh c = Some h -> wf_resp Tst Tr Tr TrI False r -> h r = ERet o ->
+                         wf_out Tst Tr Tr TrI False o) ->
+        (forall c h r, eh c = Some h -> wf_resp Tst Tr Tr TrI False r -> h r <> ERaise false) ->
+        passed (wsgi env eh p) = false)
+  /\ (forall env eh p ev,
+        wsgi env eh p = WsPassed ev -> ev = fst (fst (handle p)) /\ count is_start ev = 0).
+Proof.
+  split; [split; [reflexivity|split; reflexivity]|].
+  split; [|split; [|split; [exact no_escape_not_passed|exact passed_events]]].
+  - intros mro j E. split; [|split].
+    + intros H. unfold hres_of_raise. now rewrite fate_handle_ordinary.
+    + intros H. unfold item_of_raise. now rewrite fate_cast_ordinary.
+    + intros H. now apply to_catchall_spec.
+  - intros mro j. split; [|split].
+    + intros H. unfold hres_of_raise. now rewrite fate_handle_escape.
+    + intros H. unfold item_of_raise. now rewrite fate_cast_escape.
+    + intros [H|H]; unfold to_catchall; rewrite H; [reflexivity|apply Bool.andb_false_r].
+Qed.
+Print Assumptions C03_passthrough_by_class.
+
 (* With config.catchall = False the except clause of wsgi() re-raises: a request that
    never reaches it is answered exactly as with catchall = True; otherwise the exception
    leaves Ombott.wsgi and start_response has not been called at all (the server answers). *)
@@ -311,8 +366,8 @@ Ltac wf_crush S102 S299 :=
          | |- Tr _ => exact I
          | |- Tst _ _ => exact I
          | |- TrI _ => exact I
-         | |- wf_hprog _ _ _ _ _ => unfold wf_hprog
-         | |- wf_hres _ _ _ _ _ => unfold wf_hres
+         | |- wf_hprog _ _ _ _ _ _ => unfold wf_hprog
+         | |- wf_hres _ _ _ _ _ _ => unfold wf_hres
          | |- wf_mut _ _ _ _ => unfold wf_mut
          | |- hs_ok _ _ _ => unfold hs_ok
          | |- cs_ok _ _ => unfold cs_ok
@@ -322,9 +377,9 @@ Ltac wf_crush S102 S299 :=
          end.
 
 Example C03_wf_nonvacuous :
-  wf_program status_ok Tr Tr TrI demo_prog
-  /\ wf_program Tst name_ok hval_ok TrI demo_prog
-  /\ wf_program Tst Tr Tr bytes_tail_ok demo_prog
+  wf_program status_ok Tr Tr TrI True demo_prog
+  /\ wf_program Tst name_ok hval_ok TrI True demo_prog
+  /\ wf_program Tst Tr Tr bytes_tail_ok True demo_prog
   /\ trace (mkEnv false false false [] []) (fun _ => None) demo_prog
      = Some [EvHookB 0; EvRouted; EvHandler; EvHookA 0;
              EvStart (lit "299 Fine") [(lit "X-A", lit "v"); (lit "Content-Type", lit "text/html; charset=UTF-8");
@@ -358,3 +413,33 @@ Example C03_hook_edits_nonvacuous :
   fst (fst (handle p))
   = [EvHookB 0; EvHookB 1; EvRouted; EvHandler; EvHookA 14; EvHookA 2; EvHookA 1].
 Proof. vm_compute. reflexivity. Qed.
+
+(* exception classes: a handler raising ConnectionResetError is answered 500; KeyboardInterrupt
+   and GeneratorExit (not an Exception) go to the server after the after_request hooks, and
+   start_response is not called; a generator raising MemoryError at the first next() likewise *)
+Example C03_passthrough_nonvacuous :
+  let env := mkEnv false false false [] [] in
+  let eh := fun _ : Z => @None (resp -> ehres) in
+  let prog := fun h => mkProg [] [mkH [] (HRet OFalsy)] (ROk [] (mkH [] h)) in
+  let cre := [lit "ConnectionResetError"; lit "ConnectionError"; lit "OSError"; lit "Exception";
+              lit "BaseException"; lit "object"] in
+  let ki := [lit "KeyboardInterrupt"; lit "BaseException"; lit "object"] in
+  let ge := [lit "GeneratorExit"; lit "BaseException"; lit "object"] in
+  let me := [lit "MemoryError"; lit "Exception"; lit "BaseException"; lit "object"] in
+  (match wsgi env eh (prog (hres_of_raise cre [])) with
+   | WsOk ev _ st _ => s_code st = 500%Z /\ count is_start ev = 1
+   | _ => False
+   end)
+  /\ wsgi env eh (prog (hres_of_raise ki [])) = WsPassed [EvRouted; EvHandler; EvHookA 0]
+  /\ wsgi env eh (prog (hres_of_raise ge [])) = WsPassed [EvRouted; EvHandler; EvHookA 0]
+  /\ wsgi env eh (prog (HRet (OIter 1 true [IYield OFalsy; item_of_raise me []] [])))
+     = WsPassed [EvRouted; EvHandler; EvHookA 0]
+  /\ wf_program Tst Tr Tr TrI False (prog (hres_of_raise cre []))
+  /\ ~ wf_program Tst Tr Tr TrI False (prog (hres_of_raise ki [])).
+Proof.
+  cbv zeta. split; [vm_compute; split; reflexivity|].
+  split; [vm_compute; reflexivity|]. split; [vm_compute; reflexivity|]. split; [vm_compute; reflexivity|].
+  split.
+  - unfold wf_program. cbn. repeat split; repeat constructor.
+  - unfold wf_program. cbn. intros [_ [_ [_ [_ H]]]]. exact H.
+Qed.
